@@ -37,35 +37,7 @@ def check(run):
     def calls(fn, suffix):
         return [c for c in fn.calls() if (q.callee_name(c) or '').endswith(suffix)]
 
-    run.clause('R4 re-arm: cancel() precedes the key write; m_expired=false is followed by add_timer(this) on every path')
-    for name in ('expires_at', 'expires_after'):
-        fn = fx.fn1(T + '::' + name)
-        run.touch(fn)
-        keyw = [a.site for a in q.field_accesses(fn, {T + '::m_expiration_time'}) if a.kind == 'assign']
-        cancels = calls(fn, 'high_resolution_timer::cancel')
-        run.check(bool(keyw) and all(q.any_precedes(fn, cancels, w) for w in keyw), 'R4', 'cancel-before-key-write', T + '::' + name, fn.loc(),
-                  'the expiry (sort key of the timer queue) is written while the timer may still be queued: no cancel() dominates the write',
-                  'cancel() dominates the write of m_expiration_time')
-        falses = exp_writes(fn, False)
-        adds = [c for c in calls(fn, 'io_context::add_timer') if c.get('args') and q.is_this(c['args'][0])]
-        run.check(bool(falses) and all(q.must_follow(fn, f, adds) for f in falses), 'R4', 'unexpired-implies-queued', T + '::' + name, fn.loc(),
-                  'm_expired=false is not followed by add_timer(this) on every path (timer marked pending but not queued)', 'm_expired=false is followed by add_timer(this)')
-        run.check(all(q.any_precedes(fn, falses, a) for a in adds) and bool(adds), 'R4', 'queued-implies-unexpired', T + '::' + name, fn.loc(),
-                  'add_timer(this) without a preceding m_expired=false', 'add_timer(this) is preceded by m_expired=false')
-        # return value is cancel()'s count
-        rets = q.returns(fn)
-        okret = bool(rets)
-        for r in rets:
-            e = q.strip_casts(r.get('e'))
-            if is_node(e) and e['k'] == 'ref':
-                defs = [q.strip_casts(d) for _, d in q.local_defs(fn, e['did'])]
-                okret = okret and len(defs) == 1 and defs[0]['k'] == 'call' and (q.callee_name(defs[0]) or '').endswith('high_resolution_timer::cancel')
-            elif is_node(e) and e['k'] == 'call' and (q.callee_name(e) or '').endswith('high_resolution_timer::cancel'):
-                pass
-            else:
-                okret = False
-        run.check(okret, 'R4', 'rearm-returns-cancel-count', T + '::' + name, fn.loc(), 're-arm does not return the number of waits cancel() aborted', 'returns cancel()\'s count')
-
+    sortedness_rules(run)
     run.clause('R4 cancel: early 0 when expired; m_expired=true then remove_timer(this); 1 exactly on the path that fires the abort')
     cn = fx.fn1(T + '::cancel')
     run.touch(cn)
@@ -127,6 +99,72 @@ def check(run):
     run.check(okg, 'R4', 'expired-wait-completes', T + '::async_wait', aw.loc(), 'a wait started on an expired timer is not completed at once under the guard m_expired', 'if (m_expired) fire(success)')
     run.check(not [f for f in fl if f.kind == 'invoke'], 'R6', 'never-inline', T + '::async_wait', aw.loc(), 'async_wait invokes the handler inline', 'no inline invocation')
 
+    rn = fx.fn1(S + '::run')
+    run.touch(rn)
+    for f in calls(rn, 'high_resolution_timer::fire'):
+        er = [c for c in rn.calls() if (c.get('callee') or '').endswith('::erase') and q.render(rn, c.get('obj')) == 'm_timer_queue']
+        run.check(q.any_precedes(rn, er, f), 'R4', 'dequeue-before-fire', S + '::run', rn.loc(f), 'run() fires a timer it has not removed from the queue', 'erase precedes fire')
+        for e in er:
+            run.check(q.render(rn, e['args'][0]) in ('m_timer_queue.begin()',), 'R4', 'dequeue-front', S + '::run', rn.loc(e), 'run() erases %s, not the front' % q.render(rn, e['args'][0]), 'erases the front')
+        g = [('' if p else '!') + q.render(rn, a) for a, p in q.guards_at(rn, f)]
+        run.check(any('expiry() <= now' in x for x in g), 'R4', 'fire-only-due', S + '::run', rn.loc(f), 'fire is not guarded by front->expiry() <= now: ' + str(g), 'fires only timers whose expiry <= now')
+        a = q.render(rn, f['args'][0])
+        run.check('operation_aborted' not in a and 'error_code{}' in a.replace(' ', ''), 'R4', 'fire-success', S + '::run', rn.loc(f), 'run() fires with ' + a, 'fires with success')
+    import p12
+    p12.remove_timer_rule(run)
+    run.floor('R4', 14)
+    run.floor('R2', 10)
+
+
+
+def _exp_writes(fn, val=None):
+    out = []
+    for a in q.field_accesses(fn, {T + '::m_expired'}):
+        if a.kind == 'assign' and q.is_this(q.access_root(a.node)):
+            v = q.strip_casts(a.site.get('rhs'))
+            if val is None or (is_node(v) and v.get('v') is val):
+                out.append(a.site)
+    return out
+
+
+def _calls(fn, suffix):
+    return [c for c in fn.calls() if (q.callee_name(c) or '').endswith(suffix)]
+
+
+def sortedness_rules(run):
+    """Rules that keep m_timer_queue sorted by expiry: used by C03 and C02."""
+    fx = run.fx
+    exp_writes = _exp_writes
+    calls = _calls
+    run.clause('R4 re-arm: cancel() precedes the key write; m_expired=false is followed by add_timer(this) on every path')
+    for name in ('expires_at', 'expires_after'):
+        fn = fx.fn1(T + '::' + name)
+        run.touch(fn)
+        keyw = [a.site for a in q.field_accesses(fn, {T + '::m_expiration_time'}) if a.kind == 'assign']
+        cancels = calls(fn, 'high_resolution_timer::cancel')
+        run.check(bool(keyw) and all(q.any_precedes(fn, cancels, w) for w in keyw), 'R4', 'cancel-before-key-write', T + '::' + name, fn.loc(),
+                  'the expiry (sort key of the timer queue) is written while the timer may still be queued: no cancel() dominates the write',
+                  'cancel() dominates the write of m_expiration_time')
+        falses = exp_writes(fn, False)
+        adds = [c for c in calls(fn, 'io_context::add_timer') if c.get('args') and q.is_this(c['args'][0])]
+        run.check(bool(falses) and all(q.must_follow(fn, f, adds) for f in falses), 'R4', 'unexpired-implies-queued', T + '::' + name, fn.loc(),
+                  'm_expired=false is not followed by add_timer(this) on every path (timer marked pending but not queued)', 'm_expired=false is followed by add_timer(this)')
+        run.check(all(q.any_precedes(fn, falses, a) for a in adds) and bool(adds), 'R4', 'queued-implies-unexpired', T + '::' + name, fn.loc(),
+                  'add_timer(this) without a preceding m_expired=false', 'add_timer(this) is preceded by m_expired=false')
+        # return value is cancel()'s count
+        rets = q.returns(fn)
+        okret = bool(rets)
+        for r in rets:
+            e = q.strip_casts(r.get('e'))
+            if is_node(e) and e['k'] == 'ref':
+                defs = [q.strip_casts(d) for _, d in q.local_defs(fn, e['did'])]
+                okret = okret and len(defs) == 1 and defs[0]['k'] == 'call' and (q.callee_name(defs[0]) or '').endswith('high_resolution_timer::cancel')
+            elif is_node(e) and e['k'] == 'call' and (q.callee_name(e) or '').endswith('high_resolution_timer::cancel'):
+                pass
+            else:
+                okret = False
+        run.check(okret, 'R4', 'rearm-returns-cancel-count', T + '::' + name, fn.loc(), 're-arm does not return the number of waits cancel() aborted', 'returns cancel()\'s count')
+
     run.clause('tie order: add_timer inserts at upper_bound over the whole queue with timer_compare; remove_timer searches with the same comparator')
     at = fx.fn1(S + '::add_timer')
     run.touch(at)
@@ -163,21 +201,6 @@ def check(run):
     pb = [c for c in at.calls() if (c.get('callee') or '').split('::')[-1] in ('push_back', 'emplace_back', 'push_front') and q.render(at, c.get('obj')) == 'm_timer_queue']
     run.check(not pb, 'R4', 'sorted-insert-only', S + '::add_timer', at.loc(), 'the timer queue is appended to without sorting', 'only the sorted insert mutates the queue')
 
-    rn = fx.fn1(S + '::run')
-    run.touch(rn)
-    for f in calls(rn, 'high_resolution_timer::fire'):
-        er = [c for c in rn.calls() if (c.get('callee') or '').endswith('::erase') and q.render(rn, c.get('obj')) == 'm_timer_queue']
-        run.check(q.any_precedes(rn, er, f), 'R4', 'dequeue-before-fire', S + '::run', rn.loc(f), 'run() fires a timer it has not removed from the queue', 'erase precedes fire')
-        for e in er:
-            run.check(q.render(rn, e['args'][0]) in ('m_timer_queue.begin()',), 'R4', 'dequeue-front', S + '::run', rn.loc(e), 'run() erases %s, not the front' % q.render(rn, e['args'][0]), 'erases the front')
-        g = [('' if p else '!') + q.render(rn, a) for a, p in q.guards_at(rn, f)]
-        run.check(any('expiry() <= now' in x for x in g), 'R4', 'fire-only-due', S + '::run', rn.loc(f), 'fire is not guarded by front->expiry() <= now: ' + str(g), 'fires only timers whose expiry <= now')
-        a = q.render(rn, f['args'][0])
-        run.check('operation_aborted' not in a and 'error_code{}' in a.replace(' ', ''), 'R4', 'fire-success', S + '::run', rn.loc(f), 'run() fires with ' + a, 'fires with success')
-    import p12
-    p12.remove_timer_rule(run)
-    run.floor('R4', 14)
-    run.floor('R2', 10)
 
 
 def handlers_is_slot_test(fn, atom):
